@@ -52,7 +52,13 @@ func (g *schemaGen) component(depth int) M {
 	g.ncomp++
 	name := fmt.Sprintf("C%d", g.ncomp)
 	var s M
-	switch g.rng.Intn(6) {
+	switch g.rng.Intn(7) {
+	case 6:
+		// two-level inheritance: allOf[$ref to a component that is itself an allOf, inline]
+		g.ncomp++
+		mid := fmt.Sprintf("C%d", g.ncomp)
+		g.d.Comp("schemas", mid, M{"allOf": L{g.refObjectRequired(depth + 1), g.flatObject()}})
+		s = M{"allOf": L{Ref("schemas", mid), g.flatObject()}}
 	case 0:
 		s = Arr(g.refObject(depth + 1))
 	case 1:
